@@ -33,7 +33,7 @@ def main():
             print('== %s exit=%d' % (p, code))
             for l in lines:
                 if l.startswith(('VIOLATION', 'UNDECIDED', 'ANALYSIS', 'KNOWN', '  rule', '  construct')) or l.startswith(p):
-                    print('  ' + l.replace(d, '<scratch>'))
+                    print("  " + l.replace(d, "<scratch>")[:230])
     finally:
         shutil.rmtree(d)
 
